@@ -62,6 +62,25 @@ struct Pool {
     /// occurrences of each base64url character at each of the 22 positions of a 16-byte salt's text
     char_counts: Vec<u64>,
     n_text22: u64,
+    /// occurrences of each byte value at each of the 16 positions of a decoded 16-byte salt
+    byte_counts: Vec<u64>,
+    n_bytes16: u64,
+}
+/// Byte values that never occur at some position of the decoded salt (asked for only when n >= 10 000:
+/// a uniform source misses one with probability below 16 * 256 * exp(-n / 256)).
+fn missing_bytes(counts: &[u64], n: u64) -> Vec<String> {
+    let mut out = vec![];
+    if n < 10_000 {
+        return out;
+    }
+    for pos in 0..16 {
+        for v in 0..256 {
+            if counts[pos * 256 + v] == 0 {
+                out.push(format!("byte 0x{v:02x} never at position {pos}"));
+            }
+        }
+    }
+    out
 }
 const B64URL: &[u8; 64] = b"ABCDEFGHIJKLMNOPQRSTUVWXYZabcdefghijklmnopqrstuvwxyz0123456789-_";
 /// Characters that never occur although they should: at positions 0..=20 all 64, at position 21 the four
@@ -84,7 +103,7 @@ fn missing_chars(counts: &[u64], n: u64) -> Vec<String> {
 }
 impl Pool {
     fn new() -> Pool {
-        Pool { seen: HashMap::new(), dup: vec![], bit_ones: vec![0; 128], n_salts: 0, char_counts: vec![0; 22 * 64], n_text22: 0 }
+        Pool { seen: HashMap::new(), dup: vec![], bit_ones: vec![0; 128], n_salts: 0, char_counts: vec![0; 22 * 64], n_text22: 0, byte_counts: vec![0; 16 * 256], n_bytes16: 0 }
     }
     fn add(&mut self, h: &Harvest, origin: &str) {
         for s in h.salts.iter().chain(h.decoys.iter()) {
@@ -110,6 +129,12 @@ impl Pool {
                 }
             }
             if let Some(b) = codec::b64d(s) {
+                if b.len() == 16 {
+                    self.n_bytes16 += 1;
+                    for (pos, v) in b.iter().enumerate() {
+                        self.byte_counts[pos * 256 + *v as usize] += 1;
+                    }
+                }
                 if b.len() >= 16 {
                     self.n_salts += 1;
                     for i in 0..128 {
@@ -272,6 +297,34 @@ fn histories(rep: &Report, instances: usize, n: usize, global: &mut Pool) {
     rep.scope_done(json!({"scope": format!("sequential history: {instances} issuer instances x {n} issuances of the same AllLevels claims, compact and JSON alternating, decoys on except every fourth call")}));
 }
 
+/// Thread generations: a thread is started, issues, and ends before the next one starts (the operating system
+/// reuses its stack and thread-local addresses). `gens` generations of one thread each; nothing may repeat.
+fn thread_generations(rep: &Report, gens: usize, n: usize, global: &mut Pool) {
+    let u = json!({"iss": gen::ISS, "exp": gen::EXP, "a": 1, "b": {"c": [2, 3]}});
+    let cfg = Cfg { fmt: Fmt::Compact, alg: Alg::HS256, decoys: true, hk: Hk::None };
+    let mut l = Local::default();
+    for g in 0..gens {
+        let u2 = u.clone();
+        let outs: Vec<Out<String>> = std::thread::spawn(move || {
+            let mut issuer = drive::new_issuer(keys::issuer_enc(Alg::HS256, 0), Some("HS256"));
+            (0..n).map(|_| drive::issue(&mut issuer, &u2, &Strat::All, None, true, Fmt::Compact)).collect()
+        })
+        .join()
+        .unwrap_or_default();
+        for (k, o) in outs.iter().enumerate() {
+            l.evals += 1;
+            let h = harvest(&u, &Strat::All, &cfg, o);
+            for (site, detail) in &h.problems {
+                l.violation(Violation::new("issue", "malformed_salt_or_digest", site.as_str(), "thread_generations", detail.clone(), json!({"kind": "c14_history", "instances": gens, "n": n})));
+            }
+            global.add(&h, &format!("thread generation {g} issuance {k}"));
+        }
+    }
+    l.nontrivial += (gens * n) as u64;
+    rep.merge(l);
+    rep.scope_done(json!({"scope": format!("thread generations: {gens} threads one after another (each ended before the next starts), {n} issuances each; all salts and decoy digests of all generations pairwise distinct")}));
+}
+
 /// Free-running OS threads (no scheduler): auxiliary, labelled as sampling of schedules.
 fn free_running(rep: &Report, threads: usize, n: usize, global: &mut Pool) {
     let u = json!({"iss": gen::ISS, "exp": gen::EXP, "a": 1, "b": {"c": [2, 3]}});
@@ -337,6 +390,8 @@ pub fn worker(args: &[String]) {
         doc["n_salts"] = json!(pool.n_salts);
         doc["char_counts"] = json!(pool.char_counts);
         doc["n_text22"] = json!(pool.n_text22);
+        doc["byte_counts"] = json!(pool.byte_counts);
+        doc["n_bytes16"] = json!(pool.n_bytes16);
         println!("RESULT {doc}");
         return;
     }
@@ -443,6 +498,10 @@ pub fn run(rep: &Report) {
             global.char_counts[i] += b.as_u64().unwrap_or(0);
         }
         global.n_text22 += r["n_text22"].as_u64().unwrap_or(0);
+        for (i, b) in r["byte_counts"].as_array().cloned().unwrap_or_default().iter().enumerate() {
+            global.byte_counts[i] += b.as_u64().unwrap_or(0);
+        }
+        global.n_bytes16 += r["n_bytes16"].as_u64().unwrap_or(0);
     }
     // path-spelling family: member names that spell another node's path ("a.a" next to a:{a:..}, "a[0]" next to a:[..])
     {
@@ -478,6 +537,7 @@ pub fn run(rep: &Report) {
     for k in [1usize, 2, 4, 8, inst] {
         histories(rep, k, n / k.max(1) * 2, &mut global);
     }
+    thread_generations(rep, if rep.quick() { 48 } else { 400 }, if rep.quick() { 10 } else { 40 }, &mut global);
     free_running(rep, 16, if rep.quick() { 100 } else { 2000 }, &mut global);
     cross_process(rep, &mut global);
     // global distinctness over everything this check produced
@@ -504,6 +564,11 @@ pub fn run(rep: &Report) {
     }
     let missing = missing_chars(&global.char_counts, global.n_text22);
     rep.set_extra("auxiliary_salt_alphabet_coverage", json!({"salts_of_22_characters": global.n_text22, "position_character_pairs_expected": 21 * 64 + 4, "never_seen": missing.len(), "note": "every base64url character must occur at every position of the salt text; statistical (a uniform source misses one with probability < 1e-60 at this sample size), not a coverage claim"}));
+    let missing_b = missing_bytes(&global.byte_counts, global.n_bytes16);
+    rep.set_extra("auxiliary_salt_byte_census", json!({"salts_of_16_bytes": global.n_bytes16, "position_value_pairs_expected": 16 * 256, "never_seen": missing_b.len(), "note": "every byte value must occur at every position of the decoded salt; statistical (probability of a false alarm < 1e-100 at this sample size), not a coverage claim"}));
+    if let Some(m) = missing_b.first() {
+        l.violation(Violation::new("issue", "salt_alphabet_not_covered", "c14_byte_census", "global", format!("{} (position, byte value) pairs never occur over {} salts, first: {m}", missing_b.len(), global.n_bytes16), json!({"kind": "c14_global"})));
+    }
     if let Some(m) = missing.first() {
         l.violation(Violation::new("issue", "salt_alphabet_not_covered", "c14_character_coverage", "global", format!("{} (position, character) pairs never occur over {} salts, first: {m}", missing.len(), global.n_text22), json!({"kind": "c14_global"})));
     }
@@ -563,6 +628,7 @@ pub fn replay(case: &Value) -> Vec<Violation> {
             let rep = Report::new("C14", "quick", "model_checking");
             let mut global = Pool::new();
             histories(&rep, 4, 200, &mut global);
+            thread_generations(&rep, 24, 10, &mut global);
             for c in configs(true).into_iter().take(3) {
                 run_config(&rep, &c, &mut global);
             }
@@ -576,6 +642,9 @@ pub fn replay(case: &Value) -> Vec<Violation> {
                     l.violation(Violation::new("issue", "biased_salt_bit", "c14_bit_frequency", "global", format!("bit {i}"), case.clone()));
                     break;
                 }
+            }
+            if let Some(m) = missing_bytes(&global.byte_counts, global.n_bytes16).first() {
+                l.violation(Violation::new("issue", "salt_alphabet_not_covered", "c14_byte_census", "global", m.clone(), case.clone()));
             }
             if let Some(m) = missing_chars(&global.char_counts, global.n_text22).first() {
                 l.violation(Violation::new("issue", "salt_alphabet_not_covered", "c14_character_coverage", "global", m.clone(), case.clone()));
